@@ -64,6 +64,10 @@ func UniquePool() []Member {
 	add([]any{float64(1)})
 	add([]int{1})
 	add([1]int{1})
+	add([1]any{float64(1)})
+	add([1]any{json.Number("1.0")})
+	add([2]any{float64(1), nil})
+	add([2]any{int8(1), (*int)(nil)})
 	add("")
 	add([]any{})
 	add(map[string]any{})
